@@ -128,7 +128,7 @@ def cfgdiff2(ctx, pa, pb, cfg):
                   "unreviewed divergence between the two builds" % short,
                   "reviewed fork: %s" % U.get(short, ""), cfg,
                   detail=None if in_U(short) else _diff(skeleton.exact(fa), skeleton.exact(fb)))
-    ctx.check(same >= 130, "CFGDIFF2", "*", "identical functions", "?",
+    ctx.check(same >= 125, "CFGDIFF2", "*", "identical functions", "?",
               "only %d functions are identical in both builds" % same, "%d functions have identical resolved MIR in both builds" % same, cfg, nontrivial=False)
     ctx.extra.setdefault("cfgdiff2", {})[cfg] = {"identical": same, "differing": sorted(differing)}
 
